@@ -25,6 +25,10 @@ pub enum Op {
     /// of its bytes (what the storage itself builds), 1 = the ZLib one, 2 = a local header + the mode-N image,
     /// 3 = the 16 bytes of its encoding key, 4 = the 16 bytes of its content key (MD5 of the plain bytes)
     WriteImageOf { j: usize, form: u8 },
+    /// container only: write `n` small distinct objects whose encoding keys all fall into index bucket `b`
+    /// (the payloads are filtered by their key): the bucket's 1260-entry update section fills and is merged while
+    /// the container runs, and with 3700 the sorted section of its .idx file passes 64 KiB
+    BulkWrite { n: u32, b: u8 },
     Read(usize),
     ReadAll,
     Query(usize),
@@ -152,7 +156,7 @@ impl Scenario for Store {
         "exploration"
     }
     fn rule(&self) -> &'static str {
-        "Seeded histories (2-15 ops) of write/read/read-all/query/query-absent/remove/flush/reopen on three real front ends over one sandbox directory: DynamicContainer, Installation, and a bare ArchiveManager in each compression mode (None/ZLib/LZ4). Payload classes: random, compressible, empty, 1 byte, starting with 'BLTE', 'BLTE' at offset 0x1E, a complete nested BLTE file, a valid local header followed by BLTE, zeros, and (op write_image_of) the stored IMAGE of an object written EARLIER in the same run - its mode-N or ZLib single-chunk BLTE file, a local header + that image, its 16-byte encoding key, its 16-byte content key; size patterns large-then-small / shrinking / growing / equal / doubling (1 B - 256 KiB). After EVERY op the latest object and one older object are read back and compared byte for byte with a map model; all objects at the end; reopen = drop + fresh instance on the same directory. Non-trivial = >= 2 state-changing ops; distinct = hash of (config, ops, observed results)."
+        "Seeded histories (2-15 ops) of write/read/read-all/query/query-absent/remove/flush/reopen on three real front ends over one sandbox directory: DynamicContainer, Installation, and a bare ArchiveManager in each compression mode (None/ZLib/LZ4). Payload classes: random, compressible, empty, 1 byte, starting with 'BLTE', 'BLTE' at offset 0x1E, a complete nested BLTE file, a valid local header followed by BLTE, zeros, (one container run in 100: op bulk_write = 1261 ... 3700 small objects whose keys fall into ONE index bucket) and (op write_image_of) the stored IMAGE of an object written EARLIER in the same run - its mode-N or ZLib single-chunk BLTE file, a local header + that image, its 16-byte encoding key, its 16-byte content key; size patterns large-then-small / shrinking / growing / equal / doubling (1 B - 256 KiB). After EVERY op the latest object and one older object are read back and compared byte for byte with a map model; all objects at the end; reopen = drop + fresh instance on the same directory. Non-trivial = >= 2 state-changing ops; distinct = hash of (config, ops, observed results)."
     }
     fn assumptions(&self) -> Vec<&'static str> {
         vec![
@@ -259,6 +263,18 @@ impl Scenario for Store {
                 _ => Op::Rewrite(rng.usize_below(nobj.max(1))),
             };
             ops.push(op);
+        }
+        // drawn after the history: one container run in 100 has one bulk write somewhere in it
+        let bulk = if sys == "container" && rng.chance(1, 100) { Some((rng.range(1, ops.len() as u64) as usize, *rng.pick(&[1261u32, 1300, 3700, 3700]), rng.below(16) as u8)) } else { None };
+        if let Some((at, n, b)) = bulk {
+            ops.insert(at.min(ops.len()), Op::BulkWrite { n, b });
+            // two runs in three go on with what makes a large bucket matter: merge everything into the sorted
+            // section, leave a few more entries of the same bucket pending, close and reopen
+            if rng.chance(2, 3) {
+                ops.push(Op::Flush { bucket: None });
+                ops.push(Op::BulkWrite { n: 2, b });
+                ops.push(Op::Reopen);
+            }
         }
         let caller_key = if sys == "container" { (*rng.pick(&["ekey", "content", "content", "random"])).to_string() } else { String::new() };
         Case { sys: sys.to_string(), mode: mode.to_string(), ops, caller_key }
@@ -390,6 +406,7 @@ async fn run(case: &Case, ctx: &mut Ctx) -> Option<Violation> {
             Op::Write { .. } => "write",
             Op::Rewrite(_) => "rewrite",
             Op::WriteImageOf { .. } => "write_image_of",
+            Op::BulkWrite { .. } => "bulk_write",
             Op::Read(_) => "read",
             Op::ReadAll => "read_all",
             Op::Query(_) => "query",
@@ -504,6 +521,38 @@ async fn run(case: &Case, ctx: &mut Ctx) -> Option<Violation> {
                         ctx.obs(b"werr");
                         let _ = e;
                     }
+                }
+            }
+            Op::BulkWrite { n, b } => {
+                if let Sut::Container(c) = &mut sut {
+                    use cascette_client_storage::index::IndexManager;
+                    let mut ctr = 0u64;
+                    let mut written = 0u32;
+                    while written < *n {
+                        ctr += 1;
+                        let data = super::payload(0xB0_0000_0000 | ((i as u64) << 24) | ctr, 9 + (ctr % 23) as usize);
+                        let Some(image) = blte_of(&data, CompressionMode::None) else { continue };
+                        let ek = EncodingKey::from_data(&image);
+                        if IndexManager::bucket_for_key(&ek) != *b % 16 {
+                            continue;
+                        }
+                        let ek = *ek.as_bytes();
+                        match c.write(&ek, &data).await {
+                            Ok(()) => {
+                                objs.push(Obj { ekey: ek, data, live: true, class: 0, loc: (0, 0, 0) });
+                                written += 1;
+                            }
+                            Err(e) => {
+                                // (a write that fails promises nothing: counted, like every other failed write)
+                                ctx.count("write_errors");
+                                let _ = e;
+                                break;
+                            }
+                        }
+                    }
+                    ctx.mutations += 2;
+                    ctx.count("bulk_writes");
+                    ctx.event(|| json!({"k":"op","op":"bulk_write","n":n,"bucket":b}));
                 }
             }
             Op::Read(j) => {
